@@ -79,6 +79,9 @@ pub struct GenCfg {
     /// some variables are named with a `-` (`first-name`): parser-level checks only (the generated-crate tier
     /// writes variable names as Rust identifiers)
     pub hyphen_vars: bool,
+    /// one namespace in three writes its key names with `-` where the pool has `_` (`hello-world`): parser-level
+    /// checks only. Names that differ only by `-` / `_` then occur in different namespaces and in successive projects
+    pub hyphen_keys: bool,
 }
 
 impl Default for GenCfg {
@@ -115,6 +118,7 @@ impl Default for GenCfg {
             fk_refs_min: 0,
             fmt_no_zoned_time: false,
             hyphen_vars: false,
+            hyphen_keys: false,
         }
     }
 }
@@ -270,7 +274,7 @@ impl<'t> Gen<'t> {
             match kind {
                 0 => out.push(Piece::Text(self.text(tag))),
                 1 => {
-                    let name = if self.cfg.hyphen_vars && self.t.chance(1, 5) { *self.t.choose(&["first-name", "user-id", "x-y-z"]) } else { *self.t.choose(VAR_POOL) };
+                    let name = if self.cfg.hyphen_vars && self.t.chance(1, 5) { *self.t.choose(&["first-name", "user-id", "x-y-z", "first_name", "user_id"]) } else { *self.t.choose(VAR_POOL) };
                     out.push(self.var_piece_fmt(name));
                 }
                 _ => {
@@ -822,7 +826,9 @@ impl<'t> Gen<'t> {
             Some(v) => v.iter().cloned().map(Some).collect(),
         };
         for ns in &ns_list {
+            let hyphen = self.cfg.hyphen_keys && self.t.chance(1, 3);
             let mut names = NameSrc::new(self.t);
+            names.hyphen = hyphen;
             let tag0 = format!("{}{}", locales[0], ns.as_deref().map(|n| format!("/{n}")).unwrap_or_default());
             let base = self.default_obj(&tag0, &mut names);
             for (i, l) in locales.iter().enumerate() {
@@ -1191,6 +1197,7 @@ pub fn sanitize_arg_text(s: &str) -> String {
 pub struct NameSrc {
     order: Vec<usize>,
     next: usize,
+    pub hyphen: bool,
 }
 
 impl NameSrc {
@@ -1198,13 +1205,19 @@ impl NameSrc {
         NameSrc {
             order: t.permutation(KEY_POOL.len()),
             next: 0,
+            hyphen: false,
         }
     }
     pub fn next(&mut self, _t: &mut Tape) -> String {
         let i = self.next;
         self.next += 1;
         if i < self.order.len() {
-            KEY_POOL[self.order[i]].to_string()
+            let n = KEY_POOL[self.order[i]].to_string();
+            if self.hyphen {
+                n.replace('_', "-")
+            } else {
+                n
+            }
         } else {
             format!("gen_key{}", i)
         }
